@@ -159,7 +159,12 @@ func oracle(c qcase.Case) (evid.Info, error) {
 		}
 		return info, fmt.Errorf("only the optimised translation of %q is rejected (%v); the translation without optimisation succeeds", c.Query, errOpt)
 	case errUn != nil:
-		return info, fmt.Errorf("only the translation WITHOUT optimisation rejects %q (%v); with optimisation DAWGS translates it to\n%s", c.Query, errUn, optRes.SQL)
+		// A query that only translates WITH optimisation (e.g. `-[*1..1 {k: v}]->`: the exact-range lowering turns the
+		// step into a fixed one, which supports an inline property map) has no unoptimised SQL to compare with. The
+		// property is about results of the two translations; an optimiser that makes more queries translatable changes
+		// no result. Counted, not judged (the first version reported it: Appendix B of DESIGN.md).
+		info.Skip = "only-unoptimised-rejected"
+		return info, nil
 	}
 	opt := translated{sql: optRes.SQL, params: optRes.Params, raw: optRes.Raw}
 	for _, l := range opt.raw.Optimization.Lowerings {
